@@ -35,6 +35,15 @@ def apply_edit(root, rel, old, new):
         with open(path, 'w', newline='') as f:
             f.write(ast.unparse(ast.parse(raw)) + '\n')
         return True
+    if isinstance(old, tuple) and old[0] == 'rename_local':
+        # ('rename_local', 'Class.method.inner', name): scope-aware rename of a local variable on the syntax tree
+        import ast
+        tree = ast.parse(raw)
+        if not rename_local(tree, old[1], old[2], new):
+            return False
+        with open(path, 'w', newline='') as f:
+            f.write(ast.unparse(tree) + '\n')
+        return True
     if isinstance(old, tuple):
         # ('rename', start_marker, end_marker, name): rename an identifier between two markers (each must occur)
         import re
@@ -61,6 +70,82 @@ def apply_edit(root, rel, old, new):
     with open(path, 'w', newline='') as f:
         f.write(raw.replace(old, new))
     return True
+
+
+def find_scope(tree, qual):
+    import ast
+    node = tree
+    for part in qual.split('.'):
+        nxt = None
+        for ch in ast.walk(node):
+            if ch is not node and isinstance(ch, (ast.FunctionDef, ast.AsyncFunctionDef, ast.ClassDef)) and ch.name == part:
+                nxt = ch
+                break
+        if nxt is None:
+            return None
+        node = nxt
+    return node
+
+
+def binds_locally(fn, name):
+    """does function `fn` bind `name` itself (assignment, loop target, with/except alias, parameter) without nonlocal/global?"""
+    import ast
+    a = fn.args
+    if name in [x.arg for x in a.posonlyargs + a.args + a.kwonlyargs] or (a.vararg and a.vararg.arg == name) or (a.kwarg and a.kwarg.arg == name):
+        return True
+    declared = False
+    bound = False
+    stack = list(fn.body)
+    while stack:
+        n = stack.pop()
+        if isinstance(n, (ast.FunctionDef, ast.AsyncFunctionDef, ast.ClassDef, ast.Lambda)):
+            if not isinstance(n, ast.Lambda) and n.name == name:
+                bound = True
+            continue
+        if isinstance(n, (ast.Global, ast.Nonlocal)) and name in n.names:
+            declared = True
+        if isinstance(n, ast.Name) and n.id == name and isinstance(n.ctx, (ast.Store, ast.Del)):
+            bound = True
+        if isinstance(n, ast.ExceptHandler) and n.name == name:
+            bound = True
+        if isinstance(n, ast.alias) and (n.asname or n.name.split('.')[0]) == name:
+            bound = True
+        stack.extend(ast.iter_child_nodes(n))
+    return bound and not declared
+
+
+def rename_local(tree, qual, name, new):
+    import ast
+    fn = find_scope(tree, qual)
+    if fn is None or not isinstance(fn, (ast.FunctionDef, ast.AsyncFunctionDef)):
+        return False
+    count = 0
+
+    def visit(n, top):
+        nonlocal count
+        if not top and isinstance(n, (ast.FunctionDef, ast.AsyncFunctionDef)):
+            if n.name == name:
+                n.name = new
+                count += 1
+            if binds_locally(n, name):
+                return
+        if isinstance(n, ast.Name) and n.id == name:
+            n.id = new
+            count += 1
+        if isinstance(n, ast.ExceptHandler) and n.name == name:
+            n.name = new
+            count += 1
+        if isinstance(n, (ast.Global, ast.Nonlocal)) and name in n.names:
+            n.names = [new if x == name else x for x in n.names]
+        for ch in ast.iter_child_nodes(n):
+            visit(ch, False)
+    a = fn.args
+    for x in a.posonlyargs + a.args + a.kwonlyargs + ([a.vararg] if a.vararg else []) + ([a.kwarg] if a.kwarg else []):
+        if x.arg == name:
+            x.arg = new
+            count += 1
+    visit(fn, True)
+    return count > 0
 
 
 def new_findings(repo, prop):
